@@ -34,6 +34,7 @@ type Profile struct {
 	HelpCases bool    // also request the help of every command level
 	Descs     float64 // descriptions (some multi-line) on options and commands
 	Again     float64 // probability that a case is run after an earlier Parse on the same object
+	Sets      float64 // probability that the program calls SetValue between the definitions and Parse
 }
 
 var AllKinds = []string{"bool", "incr", "string", "int", "float", "sopt", "iopt", "fopt", "sslice", "islice", "fslice", "smap"}
@@ -284,6 +285,19 @@ func GenDef(r *rand.Rand, p *Profile) Cfg {
 	if p.Descs > 0 && chance(r, 0.3) {
 		c.Self = true
 		c.Prog = T(pick(r, []string{"tool", "my-prog", "x"}))
+	}
+	if chance(r, p.Sets) {
+		for k := 1 + r.Intn(3); k > 0; k-- {
+			oi := r.Intn(len(c.Opts) + 1) // 0: a name that is not declared
+			if oi != 0 && oi == c.HelpOpt() {
+				continue
+			}
+			vals := []Tok{}
+			for nv := r.Intn(3); nv > 0; nv-- {
+				vals = append(vals, T(genValue(r, p)))
+			}
+			c.Sets = append(c.Sets, SetCfg{Opt: oi, Vals: vals})
+		}
 	}
 	c.Normalize()
 	return c
